@@ -9,6 +9,7 @@ the size-limited vector functions respect their limit are checked on every run w
 buffers around the window for every call (harness oracles in release and debug profiles).
 -/
 import MinizProof.Props.C05
+import MinizProof.Lemmas.CoreCall
 namespace C08
 
 /-- End of the window, for all `len, pos ≤ len, budget` below 2^64 (symbolic). -/
@@ -35,6 +36,61 @@ theorem window_unlimited (len pos : Nat) (hl : len < 2 ^ 64) (hp : pos ≤ len) 
   · simp only [h, ↓reduceIte]
 
 theorem usize_max : G.tyMax (.u 64) = ((2 ^ 64 - 1 : Nat) : Int) := by decide +kernel
+
+/-! ### The decoder model (`Model.Core.decompress`, tied to the code by the ICALL correspondence)
+
+The theorems below hold for EVERY register state (reachable or not), every input, every buffer
+geometry and every flags word: they are consequences of a per-transition invariant
+(`Lemmas/CoreFrame`: every one of the 24 working states keeps the cursors inside the offered input
+and the granted window and writes only between the old and the new output position), lifted to
+whole runs by induction on the number of transitions. -/
+open Model.Core
+
+/-- TIE to the regenerated source: the end of the model's write window is the `max` computed by
+    `OutputBuffer::from_slice_pos_and_max`. -/
+theorem model_window_is_source (len pos budget : Nat) (hl : len < 2 ^ 64) (hp : pos ≤ len) (hb : budget < 2 ^ 64) :
+    ((min (pos + budget) len : Nat) : Int) = Gen.OutBuf.window_end len pos budget := by
+  rw [window_end_exact len pos budget hl hp hb]
+  by_cases h : pos + budget ≤ len
+  · simp only [h, ↓reduceIte]; congr 1; omega
+  · simp only [h, ↓reduceIte]; congr 1; omega
+
+/-- A call writes only inside `[outPos, outPos + written)`, which lies inside the budget and inside
+    the slice; every other byte of the buffer is unchanged and the buffer keeps its length. -/
+theorem writes_only_inside_window (r : Regs) (inp out : Array UInt8) (outPos budget flags : Nat) :
+    let res := decompress r inp out outPos budget flags
+    res.out.size = out.size ∧ res.written ≤ budget ∧ res.written ≤ out.size - outPos ∧
+    ∀ i, (i < outPos ∨ outPos + res.written ≤ i) → res.out[i]? = out[i]? := by
+  have h := decompress_facts r inp out outPos budget flags
+  exact ⟨h.size, h.wBudget, h.room, h.frame⟩
+
+/-- "Has more output" is reported only when the granted region is completely full. -/
+theorem has_more_output_means_full (r : Regs) (inp out : Array UInt8) (outPos budget flags : Nat) :
+    let res := decompress r inp out outPos budget flags
+    res.status = stHasMoreOutput → res.written = min budget (out.size - outPos) :=
+  (decompress_facts r inp out outPos budget flags).hmo
+
+/-- "Needs more input" (and "cannot make progress") only when all offered input was consumed. -/
+theorem needs_more_input_means_all_consumed (r : Regs) (inp out : Array UInt8) (outPos budget flags : Nat) :
+    let res := decompress r inp out outPos budget flags
+    (res.status = stNeedsMoreInput ∨ res.status = stFailedCannotMakeProgress) → res.consumed = inp.size :=
+  (decompress_facts r inp out outPos budget flags).nmi
+
+/-- Hence a driver loop makes progress: with non-empty input and a non-empty grant, a call that
+    asks for more input or more output has consumed or produced at least one byte. -/
+theorem driver_loop_progress (r : Regs) (inp out : Array UInt8) (outPos budget flags : Nat)
+    (hi : 0 < inp.size) (ho : 0 < min budget (out.size - outPos)) :
+    let res := decompress r inp out outPos budget flags
+    (res.status = stNeedsMoreInput ∨ res.status = stHasMoreOutput) → 0 < res.consumed + res.written := by
+  intro res hs
+  have h := decompress_facts r inp out outPos budget flags
+  show 0 < (decompress r inp out outPos budget flags).consumed + (decompress r inp out outPos budget flags).written
+  rcases hs with hs | hs
+  · have := h.nmi (Or.inl hs); omega
+  · have := h.hmo hs; omega
+
+example : (decompress {} #[0x01, 0x01, 0x00, 0xfe, 0xff, 0x41] (Array.replicate 4 0) 1 8 4).written = 1 := by
+  decide +kernel
 
 example : Gen.OutBuf.window_end 10 4 3 = 7 := by decide +kernel
 example : Gen.OutBuf.window_end 10 4 100 = 10 := by decide +kernel
